@@ -268,3 +268,7 @@ _amend('C10', 'The same definitions are checked for the aligned matrix types of 
 _amend('C11', 'The GLSL definitions are checked for the scalar overload and for every vector length, including the mixed vector / scalar overloads; step is total (a NaN operand gives 1).')
 _amend('C03', 'Undecided class A / class B pairs are refuted by exact evaluation of both derived terms (ties, the 2^23 boundary, O(1) pools); lowp hardware approximations are decided by an error-factor argument (intrinsic lane == pure lane times or over one factor 1 + e, |e| <= 1.5 * 2^-12).')
 _amend('C20', 'A run-time index into an object of known size yields one alternative per element and an out-of-bounds obligation; the half decoders are analysed with the loop peeled and discharged on the 52 shapes of a half code; the ladders of the signed power-of-two functions by case analysis on x - 1.')
+_amend('C01', 'The lowp accuracy clause (inversesqrt: relative error below 2^-8) is decided by interval analysis of the derived lane term over [1, 4) plus the exact 4^k scaling of the bit trick.')
+_amend('C03', 'Double is compared for the matrix, geometric and common operators and the splat helpers; the AVX level (AVX-only arms of the 256-bit double code) is part of the quick tier for double.')
+_amend('C04', 'rotation(u, v): the identity shortcut for nearly parallel vectors must have a threshold within 16 epsilon of 1 for the element type.')
+_amend('C20', 'gtx/integer (pow for fixed exponents, mod, floor_log2, nlz) is part of the corpus.')
